@@ -39,7 +39,7 @@ def plan(tier):
 def required(tier):
     return ["components_judged", "ap_class:1", "ap_class:2", "ap_class:3-10", "ap_class:>10",
             "traversal_reversed", "hashseed_runs", "permuted_line_runs", "reorder_own_output_runs",
-            "multi_chromosome_runs", "post:biccs"]
+            "multi_chromosome_runs", "post:biccs", "default_chromosome_order_runs"]
 
 
 def setup(ctx):
@@ -103,8 +103,15 @@ def run_case(ctx, rng, index, casedir):
     scaff = rng.choice([1, 1, 2, 2, 3, rng.randint(3, 10), rng.randint(11, 60)])
     if big:
         scaff = rng.randint(100, 400)
-    g = OC.gen_graph(rng, n_chrom=rng.choice([1, 2, 3, 4]) if not big else 1, scaffolds=scaff,
-                     id_style=rng.choice(["s", "s", "name", "num"]))
+    default_mode = (index % 16 == 3)  # no --chromosome_order: the documented default order applies
+    if default_mode:
+        from gaftools.cli.order_gfa import DEFAULT_CHROMOSOME
+        dn = list(DEFAULT_CHROMOSOME)
+        g = OC.gen_graph(rng, names=dn, scaffolds=rng.choice([1, 2, 3]), id_style=rng.choice(["s", "name"]))
+        sit["default_chromosome_order_runs"] += 1
+    else:
+        g = OC.gen_graph(rng, n_chrom=rng.choice([1, 2, 3, 4]) if not big else 1, scaffolds=scaff,
+                         id_style=rng.choice(["s", "s", "name", "num"]))
     gpath = os.path.join(casedir, "in.gfa" + (".gz" if rng.random() < 0.15 else ""))
     g.write(gpath, rng=rng, shuffle=rng.random() < 0.3)
     named = OC.components_of(g)
@@ -114,12 +121,15 @@ def run_case(ctx, rng, index, casedir):
     infos = {c: OC.classify(g, named[c], c) for c in names}
     order = list(names)
     rng.shuffle(order)
+    if default_mode:
+        order = dn
     by_chrom = rng.random() < 0.5
     with_seq = rng.random() < 0.3
     if len(order) > 1:
         sit["multi_chromosome_runs"] += 1
     runs = 0
-    base = OC.run_order(gpath, os.path.join(casedir, "o0"), order, by_chrom, with_seq)
+    req = None if default_mode else order
+    base = OC.run_order(gpath, os.path.join(casedir, "o0"), req, by_chrom, with_seq)
     runs += 1
     t0 = judge_run(g, base, order, by_chrom, named, infos, viol, sit, "base")
     wit_common = {"order": order, "by_chrom": by_chrom, "n_artic": {c: infos[c]["n_artic"] for c in order}}
@@ -136,7 +146,7 @@ def run_case(ctx, rng, index, casedir):
     # permuted S/L lines
     p1 = os.path.join(casedir, "perm.gfa")
     g.write(p1, rng=rng, shuffle=True, interleave=rng.random() < 0.5)
-    r1 = OC.run_order(p1, os.path.join(casedir, "o1"), order, by_chrom, with_seq)
+    r1 = OC.run_order(p1, os.path.join(casedir, "o1"), req, by_chrom, with_seq)
     runs += 1
     M.hit("permuted_line_runs")
     same(judge_run(g, r1, order, by_chrom, named, infos, viol, sit, "permuted lines"), "line_order")
@@ -144,7 +154,7 @@ def run_case(ctx, rng, index, casedir):
     stale = {n: (rng.randint(0, 99), rng.randint(0, 9)) for n in g.nodes}
     p2 = os.path.join(casedir, "stale.gfa")
     g.write(p2, rng=rng, shuffle=False, bo_no=stale)
-    r2 = OC.run_order(p2, os.path.join(casedir, "o2"), order, by_chrom, with_seq)
+    r2 = OC.run_order(p2, os.path.join(casedir, "o2"), req, by_chrom, with_seq)
     runs += 1
     M.hit("reorder_own_output_runs")
     same(judge_run(g, r2, order, by_chrom, named, infos, viol, sit, "input with stale BO/NO"), "stale_tags")
@@ -152,7 +162,7 @@ def run_case(ctx, rng, index, casedir):
     nh = 1 if ctx.tier == "quick" else rng.choice([1, 2, 3])
     for k in range(nh):
         hs = rng.choice([0, 1, 2, 3, rng.randint(4, 2 ** 31)])
-        rh = OC.run_order(gpath, os.path.join(casedir, f"oh{k}"), order, by_chrom, with_seq, hashseed=hs,
+        rh = OC.run_order(gpath, os.path.join(casedir, f"oh{k}"), req, by_chrom, with_seq, hashseed=hs,
                           casedir=casedir, prop=None, tag=f"h{k}")
         runs += 1
         M.hit("hashseed_runs")
